@@ -4,6 +4,7 @@ from props import shared
 
 PID = "C05"
 LEAN_MODULES = ['BemppVerif.Props.C05', 'BemppVerif.Props.C12']
+LEAN_MODULES += shared.CTOR_MODULES
 N = "BemppVerif.C05."
 THEOREMS = []
 PARTIAL = {N + "sl_small_k_kernel_bound": "kernel-level bound; the lift to matrix entries (non-negative weights, rules exact for "
@@ -18,6 +19,7 @@ TRUSTED = [
     "theorems are about terms recorded while running the undecorated source of the real functions",
     "hand model Model/Asm.lean tied to the source by the generated AsmMatch theorems (symbolic, one generic configuration)",
     "classical analysis that is used but not formalised is named in PARTIAL",
+    shared.CTOR_TRUSTED,
 ]
 ASSUMPTIONS = []
 RULE = 'correspondence: compiled Numba kernels vs their traces at random points and wavenumbers + dispatch of the API constructors for Re k = 0; oracle: props/c05_oracle.py'
@@ -33,6 +35,9 @@ def generate(ctx):
                                     "regular_part_scales_with_kernel", "dl_small_k_factor_bound_partial")]
                    + shared.KERNEL_FACTS["helmholtz"] + shared.KERNEL_FACTS["modified"] + shared.KERNEL_FACTS["laplace"]
                    + ["BemppVerif.C12.coincident_rule_swap_invariant"])
+    info.update(shared.gen_ctors()[0])
+    THEOREMS.extend(shared.ctor_theorems('helmholtz_boundary', 'modified_boundary', 'helmholtz_potential', 'modified_potential', 'laplace_boundary', 'laplace_potential')
+                    + [t for t in shared.CTOR_SPEC if t.split('.')[-1] in ('helmholtz_imag_is_modified', 'helmholtz_keeps_complex_wavenumber', 'singular_part_and_dtype')])
     return info
 
 
